@@ -1007,6 +1007,104 @@ def _(m):
     F._detachDescendants = _detachDescendants
 
 
+# ---- round 11 (interleavings / interruptions; rarely used entry points and options)
+@mutant("c05_populate_cleanup_at_the_remembered_position", "C05")
+def _(m):
+    # the untouched element is deleted where it was created, not looked up again: the body inserted before it meanwhile
+    patch_modfunc(m["iterators"], "__lshift__", "index = bisect.bisect_left(self.a_fiber.coords, b_coord)",
+                  "index = a_pos", also=(m["Fiber"],))
+
+
+@mutant("c05_populate_cleanup_forgets_the_start_pos_offset", "C05")
+def _(m):
+    patch_modfunc(m["iterators"], "__lshift__", "index = bisect.bisect_left(self.a_fiber.coords, b_coord)",
+                  "index = bisect.bisect_left(self.a_fiber.coords[(self.spec_pos or 0):], b_coord)", also=(m["Fiber"],))
+
+
+@mutant("c03_walk_over_snapshots_of_the_element_lists", "C03")
+def _(m):
+    patch_modfunc(m["iterators"], "iterRange",
+                  "        iter_ = ((self.coords[j], self.payloads[j])\n                  for j in range(i, len(self.coords)))",
+                  "        iter_ = zip(self.coords[i:], self.payloads[i:])", also=(m["Fiber"],))
+
+
+@mutant("c03_initial_value_boxed_once_for_all_elements", "C03")
+def _(m):
+    patch_method(m["Fiber"], "__init__", "payloads = len(coords)*[initial]",
+                 "payloads = len(coords)*[Payload.maybe_box(initial)]")
+
+
+@mutant("c10_rejected_merge_leaves_the_operand_without_owners", "C10")
+def _(m):
+    F = m["Fiber"]
+    orig = F.mergeRanks
+
+    def mergeRanks(self, *a, **k):
+        owners = self._detach_owner()
+        try:
+            r = orig(self, *a, **k)
+        except BaseException:
+            raise                      # (the owners are put back only on the way out of a successful call)
+        self._attach_owner(owners)
+        return r
+    F.mergeRanks = mergeRanks
+
+
+@mutant("c13_dump_through_one_descriptor_level_write", "C13")
+def _(m):
+    import os
+    import tempfile
+    T = m["Tensor"]
+    orig = T.dump
+
+    def dump(self, filename):
+        d = os.path.dirname(filename) or "."
+        fd0, tmp = tempfile.mkstemp(dir=d, suffix=".full")
+        os.close(fd0)
+        orig(self, tmp)
+        with open(tmp, "rb") as f:
+            data = f.read()
+        os.remove(tmp)
+        fd, scratch = tempfile.mkstemp(dir=d, suffix=".tmp")
+        try:
+            os.write(fd, data)             # the number of bytes actually written is not looked at
+        finally:
+            os.close(fd)
+        os.replace(scratch, filename)
+    T.dump = dump
+
+
+@mutant("c13_falsy_empty_value_not_registered", "C13")
+def _(m):
+    patch_method(m["Tensor"], "setRankInfo", "if default != 0:", "if default:")
+
+
+@mutant("c17_io_error_swallowed_partial_traffic_returned", "C17")
+def _(m):
+    Tr = m["traffic"].Traffic
+    raw = Tr.__dict__["_bufferTraffic"]
+    orig = raw.__func__ if isinstance(raw, (staticmethod, classmethod)) else raw
+
+    def _bufferTraffic(*a, **k):
+        try:
+            return orig(*a, **k)
+        except OSError:
+            bindings, trace_fns = a[0], a[2]
+            return {t: {acc: 0} for (t, _r, _ty, acc) in trace_fns}, 0
+    Tr._bufferTraffic = staticmethod(_bufferTraffic) if isinstance(raw, staticmethod) else _bufferTraffic
+
+
+@mutant("c06_partition_count_tiling_uses_the_occupied_extent", "C06")
+def _(m):
+    patch_method(m["Fiber"], "__truediv__", "shape = self.getShape(all_ranks=False)", "shape = self.estimateShape(all_ranks=False)")
+
+
+@mutant("c06_relative_tiles_keep_absolute_active_range", "C06")
+def _(m):
+    # the defect F23, restated
+    patch_method(m["Fiber"], "splitUniform", "            if relativeCoords:\n                # The active range is expressed in the coordinates of the fiber it describes\n                range_start -= part\n                range_end -= part\n", "")
+
+
 def apply(name):
     if name not in MUTANTS:
         raise SystemExit(f"unknown mutant {name}; known: {sorted(MUTANTS)}")
